@@ -27,6 +27,7 @@ class Sim:
         self.n = 0
         self.wall = 0.0
         self.budget_retries = 0
+        self.watchdog_retries = 0
 
     def run(self, spec: dict, mapseed: int = 1, timeout: float = 120.0, tag: str = "", gomaxprocs: int = 1) -> dict:
         """Execute one simulated process.  Returns the result record; a dead process is reported as
@@ -43,6 +44,20 @@ class Sim:
             p = subprocess.run([self.bin, "-test.run", "^TestVerifSim$", "-test.timeout", "0"], env=env,
                                stdout=subprocess.DEVNULL, stderr=subprocess.PIPE, timeout=timeout)
         except subprocess.TimeoutExpired:
+            _rm(sp, op)
+            if not spec.get("_second_try"):
+                # a machine that is heavily loaded (other checks, compilers) can starve one process for minutes: once more,
+                # with five times the patience, before the run is given up as harness trouble
+                self.watchdog_retries += 1
+                return self.run(dict(spec, _second_try=True), mapseed=mapseed, timeout=timeout * 5, tag=tag, gomaxprocs=gomaxprocs)
+            keep = os.path.join(VERIF, "build", "watchdog-%d-%d.spec.json" % (os.getpid(), self.n))
+            try:
+                spec2 = dict(spec, _mapseed=mapseed)
+                with open(keep, "w") as f:
+                    json.dump(spec2, f)
+                sys.stderr.write("simulator watchdog: spec kept at %s\n" % keep)
+            except Exception:  # noqa
+                pass
             _rm(sp, op)
             raise HarnessTrouble("simulator watchdog: no result within %.0fs (spec seed %s)" % (timeout, spec.get("seed")))
         self.wall += time.time() - t0
